@@ -15,6 +15,7 @@ using vf::Stats;
 
 static vf::Args A;
 static bool g_verbose = false;
+static std::function<void(Stats&)> g_checkpoint; // flushes what a scenario has established so far
 
 // ---------------------------------------------------------------- options
 struct Opts {
@@ -91,6 +92,7 @@ struct ShapeSnap {
 	std::vector<std::string> bones;
 	std::vector<WMap> wA, wB; // per vertex: NiSkinData / (SE vertex data | LE partition data)
 	bool presentA = false, presentB = false;
+	int partsWithoutBones = 0;
 	bool hasShader = false, isBSLSP = false, isBSShader = false;
 	std::string shType, shName, shMasked;
 	uint32_t shKind = 0, f1 = 0, f2 = 0;
@@ -252,6 +254,9 @@ static void snap_shape(NifFile& nif, NiShape* s, ShapeSnap& o, bool withParts) {
 		}
 		o.presentA = wmap_present(o.wA);
 		o.presentB = wmap_present(o.wB);
+		if (skinPart)
+			for (auto& p : skinPart->partitions)
+				if (p.numBones == 0 || p.bones.empty()) o.partsWithoutBones++;
 	}
 
 	// shader
@@ -556,7 +561,8 @@ static void compare_geometry(const ShapeSnap& b, const ShapeSnap& a, const std::
 }
 
 struct ConvStats {
-	int sourceInconsistent = 0, rebuilt = 0, segmentsChanged = 0, segmentsKept = 0, ambiguousTop4 = 0, renamed = 0;
+	int sourceInconsistent = 0, onlyA = 0, onlyB = 0, bothDisagree = 0, bothAgree = 0;
+	int rebuilt = 0, segmentsChanged = 0, segmentsKept = 0, ambiguousTop4 = 0, renamed = 0;
 };
 
 // per-conversion oracle: b = before, a = after; toSSE = direction of this conversion
@@ -603,7 +609,12 @@ static void compare_conversion(const ModelSnap& B, const ModelSnap& Am, bool toS
 				if (amb) cs.ambiguousTop4++;
 				std::vector<WMap> refA = top4(b.wA);
 				bool consistent = b.presentA && b.presentB && (amb || wmaps_eq(b.wB, refA, nullptr));
-				if (b.presentA && b.presentB && !consistent) cs.sourceInconsistent++;
+				// an input whose two weight sources do not tell the same story (they differ, or only one of
+				// them carries weights) is only checked for the source that survives the conversion
+				if (b.presentA && b.presentB) (consistent ? cs.bothAgree : cs.bothDisagree)++;
+				else if (b.presentA) cs.onlyA++;
+				else if (b.presentB) cs.onlyB++;
+				if ((b.presentA || b.presentB) && !consistent) cs.sourceInconsistent++;
 				bool primaryFailed = false;
 				if (toSSE) {
 					if (b.presentA && !wmaps_eq(a.wA, b.wA, &where)) {
@@ -728,14 +739,33 @@ struct Source {
 	std::string feature() const { return isFile ? "file=" + file.substr(file.find('/') + 1) : std::string("skin=") + skin_name(r.skin); }
 };
 
+static int g_found_leg = 1;
 static J scenario_json(const Source& s, const Opts& o, int leg) {
 	J j = s.json();
 	j.set("opts", o.json());
 	if (leg) j.set("leg", leg);
+	// replay cases of violations seen in the second conversion carry a marker: the shortest case is
+	// kept as the minimal one, which then prefers a reproduction that needs a single conversion
+	else if (g_found_leg == 2) j.set("seen_in_second_conversion", true);
 	return j;
 }
 
 static const char* dir_name(bool toSSE) { return toSSE ? "LE->SE" : "SE->LE"; }
+
+// what the model handed to a conversion looks like, as far as skinning goes (part of fault keys, so
+// that the key names the input class and not the recipe it was derived from)
+static std::string skin_state(const ModelSnap& m) {
+	std::set<std::string> d;
+	for (auto& s : m.shapes) {
+		if (!s.hasSkinInst) { d.insert("unskinned"); continue; }
+		std::string x = s.presentA && s.presentB ? "both-weight-sources" : s.presentA ? "skindata-only-weights" : s.presentB ? "partition-only-weights" : "no-weights";
+		if (s.partsWithoutBones) x += ",no-partition-bones";
+		d.insert(x);
+	}
+	std::string out;
+	for (auto& x : d) out += (out.empty() ? "" : "+") + x;
+	return out.empty() ? "no-shapes" : out;
+}
 
 struct UnitAcc {
 	std::set<std::string> nontrivial;
@@ -755,6 +785,7 @@ static void report(Stats& st, const std::string& prefix, const Problems& ps, con
 // returns false when the scenario was not generated (headParts on an ineligible model)
 static bool run_scenario(const Source& src, const std::string& bytes, const Opts& o, Stats& st, UnitAcc& acc, bool sample) {
 	vf::set_inflight(scenario_json(src, o, 1).dump());
+	g_found_leg = 1;
 	NifFile N;
 	if (load_bytes(N, bytes) != 0) {
 		st.add("input_load_failed");
@@ -794,6 +825,7 @@ static bool run_scenario(const Source& src, const std::string& bytes, const Opts
 	if (S0.looseShapes) st.add("models_with_unreachable_shapes");
 
 	// ---- leg 1
+	vf::set_inflight(scenario_json(src, o, 1).set("in", skin_state(S0)).dump());
 	OptOptions lo = o.lib(toSSE ? NiVersion::getSSE() : NiVersion::getSK());
 	OptResult res = N.OptimizeFor(lo);
 	st.add("evaluations");
@@ -809,6 +841,10 @@ static bool run_scenario(const Source& src, const std::string& bytes, const Opts
 	std::set<std::string> seen1;
 	report(st, d1, p1, nullptr, "", src, o, &seen1);
 	st.add("source_inconsistent", cs.sourceInconsistent);
+	st.add("weights.both_sources_agree", cs.bothAgree);
+	st.add("weights.both_sources_disagree", cs.bothDisagree);
+	st.add("weights.only_NiSkinData", cs.onlyA);
+	st.add("weights.only_vertex_or_partition_data", cs.onlyB);
 	st.add("shapes_rebuilt", cs.rebuilt);
 	st.add("shapes_renamed", cs.renamed);
 	st.add("segments_kept", cs.segmentsKept);
@@ -859,7 +895,9 @@ static bool run_scenario(const Source& src, const std::string& bytes, const Opts
 	// ---- leg 2: back again, from the reloaded file.  After a leg-1 violation the second conversion
 	// is still executed (a sanitizer fault on the library's own output is a finding of its own) but
 	// its result is not compared, so that one defect is not reported twice.
-	vf::set_inflight(scenario_json(src, o, 2).dump());
+	if (g_checkpoint) g_checkpoint(st);
+	g_found_leg = 2;
+	vf::set_inflight(scenario_json(src, o, 2).set("in", skin_state(S2)).dump());
 	if (o.headParts && !headparts_eligible(S2)) {
 		st.add("leg2_skipped_headparts_not_eligible");
 		return true;
@@ -1077,7 +1115,83 @@ static void merge_lines(Stats& st, const std::string& text) {
 	}
 }
 
-static std::string crash_violation(const vf::CrashInfo& ci, const std::string& inflight, Stats& parent) {
+// ---- fault attribution without the in-process symbolizer
+// Symbolising every report inside the dying process costs ~0.2-1 s per fault (llvm-symbolizer loads
+// the debug info of the whole harness each time), which dominates the run as soon as a whole
+// feature class faults.  The harness therefore re-executes itself once with symbolize=0 added to
+// the sanitizer options and resolves the frames of a report itself, once per distinct fault site.
+static void reexec_without_inprocess_symbolizer(char** argv) {
+	if (getenv("C12_NOSYM")) return;
+	setenv("C12_NOSYM", "1", 1);
+	for (const char* name : {"ASAN_OPTIONS", "UBSAN_OPTIONS"}) {
+		const char* cur = getenv(name);
+		std::string v = cur ? cur : "";
+		v += std::string(v.empty() ? "" : ":") + "symbolize=0";
+		setenv(name, v.c_str(), 1);
+	}
+	execv("/proc/self/exe", argv);
+	// exec failed: carry on with the slow path
+}
+
+static std::map<std::string, std::string> g_frame_cache, g_frame_loc;
+
+static void resolve_frame(vf::CrashInfo& ci) {
+	if (!ci.frame.empty() || ci.text.empty()) return;
+	// frames look like "    #3 0x55d0c8a3f0b5  (/path/to/exe+0x42c0b5)"
+	std::vector<std::pair<std::string, unsigned long long>> frames;
+	std::istringstream is(ci.text);
+	std::string line;
+	while (std::getline(is, line) && frames.size() < 16) {
+		size_t h = line.find("    #");
+		if (h != 0) continue;
+		size_t lp = line.find('('), plus = line.find("+0x", lp == std::string::npos ? 0 : lp), rp = line.find(')', plus == std::string::npos ? 0 : plus);
+		if (lp == std::string::npos || plus == std::string::npos || rp == std::string::npos) continue;
+		std::string mod = line.substr(lp + 1, plus - lp - 1);
+		unsigned long long off = strtoull(line.substr(plus + 1, rp - plus - 1).c_str(), nullptr, 16);
+		frames.push_back({mod, off});
+	}
+	if (frames.empty()) return;
+	std::string mod0 = frames[0].first, ck;
+	for (auto& f : frames) ck += f.first == mod0 ? vf::strf("%llx,", f.second) : std::string("x,");
+	auto it = g_frame_cache.find(ck);
+	if (it != g_frame_cache.end()) {
+		ci.frame = it->second;
+		return;
+	}
+	const char* sym = getenv("ASAN_SYMBOLIZER_PATH");
+	std::string cmd = std::string(sym && *sym ? sym : "llvm-symbolizer") + " --demangle --inlines --functions=linkage --obj=" + mod0;
+	size_t n = 0;
+	for (auto& f : frames) {
+		if (f.first != mod0) break;
+		cmd += vf::strf(" 0x%llx", f.second ? f.second - 1 : 0); // return addresses: step back into the call
+		n++;
+	}
+	cmd += " 2>/dev/null";
+	std::string out;
+	if (FILE* p = popen(cmd.c_str(), "r")) {
+		char buf[4096];
+		size_t r;
+		while ((r = fread(buf, 1, sizeof buf, p)) > 0) out.append(buf, r);
+		pclose(p);
+	}
+	// output: per address a sequence of "function\nfile:line:col" pairs, blank line between addresses
+	std::istringstream os(out);
+	std::string fn, loc, found;
+	while (found.empty() && std::getline(os, fn)) {
+		if (fn.empty()) continue;
+		if (!std::getline(os, loc)) break;
+		bool in_repo = loc.find(A.repo + "/src/") != std::string::npos || loc.find(A.repo + "/include/") != std::string::npos;
+		if (in_repo) {
+			found = vf::sanitize_fn(fn);
+			g_frame_loc[found] = loc;
+		}
+	}
+	g_frame_cache[ck] = found;
+	ci.frame = found;
+}
+
+static std::string crash_violation(vf::CrashInfo ci, const std::string& inflight, Stats& parent) {
+	resolve_frame(ci);
 	J j;
 	try {
 		j = J::parse(inflight);
@@ -1108,11 +1222,17 @@ static std::string crash_violation(const vf::CrashInfo& ci, const std::string& i
 		toSSE1 = stream == 83;
 	}
 	bool toSSE = leg == 2 ? !toSSE1 : toSSE1;
-	std::string key = std::string(dir_name(toSSE)) + ":crash:" + ci.key() + ":" + s.feature();
-	std::string head = ci.text.substr(0, 500);
+	std::string frame = ci.frame.empty() ? "?" : ci.frame;
+	if (frame.compare(0, 7, "nifly::") == 0) frame = frame.substr(7);
+	std::string state = j.has("in") ? j["in"].str() : s.feature();
+	std::string key = std::string(dir_name(toSSE)) + ":crash:in=" + state + ":" + ci.cls + "@" + frame;
+	g_found_leg = leg == 2 ? 2 : 1;
+	std::string head = ci.text.substr(0, ci.text.find("    #"));
+	if (head.size() > 400) head.resize(400);
+	std::string loc = g_frame_loc.count(ci.frame) ? g_frame_loc[ci.frame] : "";
 	parent.violation(key,
-					 vf::strf("%s while converting %s (leg %d of %s, options %s); report: %s", ci.cls.c_str(), s.id().c_str(), leg,
-							  toSSE1 ? "LE->SE->LE" : "SE->LE->SE", o.json().dump().c_str(), head.c_str()),
+					 vf::strf("%s in %s (%s) while converting %s (leg %d of %s, options %s); report: %s", ci.cls.c_str(), ci.frame.c_str(), loc.c_str(), s.id().c_str(),
+							  leg, toSSE1 ? "LE->SE->LE" : "SE->LE->SE", o.json().dump().c_str(), head.c_str()),
 					 scenario_json(s, o, 0));
 	parent.add("scenarios_faulted");
 	parent.distinct("fault_sites", std::string(dir_name(toSSE)) + ":" + ci.key());
@@ -1138,6 +1258,7 @@ static void run_tasks(const std::vector<Task>& tasks, const std::vector<Source>&
 			FILE* f = fopen(tmp.c_str(), "w");
 			if (!f) return 5;
 			UnitAcc acc;
+			g_checkpoint = [f](Stats& x) { x.flush(f); };
 			size_t cachedSrc = (size_t) -1;
 			std::string bytes;
 			for (size_t t = pos; t < end; t++) {
@@ -1181,6 +1302,7 @@ static void run_tasks(const std::vector<Task>& tasks, const std::vector<Source>&
 }
 
 int main(int argc, char** argv) {
+	reexec_without_inprocess_symbolizer(argv);
 	A = vf::parse_args(argc, argv);
 	g_verbose = A.has("verbose");
 	Stats top;
